@@ -196,7 +196,7 @@ package cache
 //@ contract config.SampleCacheConfig.GetDroppedSizePerWorker inline
 // the monitor goroutine the cache starts reads cfg without a lock: it is written only while the cache is built
 //@ final collect/cache.cuckooSentCache.cfg
-//@ contract collect/cache.(*cuckooSentCache).Resize props C31,C01,C35 havocheap
+//@ contract collect/cache.(*cuckooSentCache).Resize props C31,C01,C35,C16 havocheap
 //@   arith math
 //@   requires c != nil && c.kept != nil && c.dropped != nil
 //@   let old0 = c.kept
